@@ -528,6 +528,39 @@ def univ_culprit_hint(done, out):
     return None
 
 
+def run_parallel(ctx, jobs, max_workers=4):
+    """Run several independent batches concurrently.  jobs = list of callables taking a child context; every child has its
+    own scratch directory; coverage counters, violations, known-finding hits and notes are merged into ctx afterwards."""
+    import concurrent.futures
+
+    def one(job):
+        child = Ctx(ctx.pid, ctx.tier, ctx.seed)
+        child.replay_mode = getattr(ctx, "replay_mode", False)
+        try:
+            job(child)
+            return child, None
+        except Infra as e:
+            return child, e
+    with concurrent.futures.ThreadPoolExecutor(max_workers=max_workers) as ex:
+        results = list(ex.map(one, jobs))
+    err = None
+    for child, e in results:
+        for k in ("states", "transitions", "traces_validated_against_impl", "events_validated", "behaviours_generated",
+                  "evaluations", "distinct_nontrivial"):
+            ctx.cov[k] += child.cov[k]
+        ctx.cov["model_runs"] += child.cov["model_runs"]
+        for smp in child.cov["samples"]:
+            if len(ctx.cov["samples"]) < 8:
+                ctx.cov["samples"].append(smp)
+        ctx.violations += child.violations
+        for t, n in child.known_hits.items():
+            note_known(ctx, t, n)
+        ctx.notes += child.notes
+        err = err or e
+    if err:
+        raise err
+
+
 def replay_scripts(path):
     rep = json.load(open(path))
     if rep.get("script"):
